@@ -70,6 +70,7 @@ fn media_history(prop: &str, i: u64, rng: &mut Rng, out: &mut Outcome, dir: &std
     let mut prev: Vec<(&str, Vec<u8>)> = vec![];
     let n_files = rng.range(1, 3);
     let mut pending_for: BTreeMap<usize, Vec<usize>> = BTreeMap::new(); // receiver -> log indices not yet delivered
+    let mut late_own_echoes: Vec<(usize, usize)> = vec![]; // (sender, its announcing message) echoed only at the very end
     for fi in 0..n_files {
         w.t += 2;
         let sender = *rng.pick(&members);
@@ -165,7 +166,14 @@ fn media_history(prop: &str, i: u64, rng: &mut Rng, out: &mut Outcome, dir: &std
         let Ok(ev) = with_mdk!(w.clients[sender].mdk, x => x.create_message(&gid, rumor.clone())) else { continue };
         let idx = w.log.len();
         w.log.push(Pub { ev, kind: PubKind::App, author: sender, g, at: at.clone(), refs: vec![], what: format!("announce file {fi}"), rumor: Some(rumor), mode: OwnMode::Echo, welcomes: vec![], adversarial: false });
+        // half of the time the relay's echo of the announcing message reaches its own sender only
+        // after everything else (it decrypts its own upload while its copy is still `Created`)
+        let own_echo_late = rng.chance(50);
         for m in members {
+            if m == sender && own_echo_late {
+                late_own_echoes.push((m, idx));
+                continue;
+            }
             pending_for.entry(m).or_default().push(idx);
         }
         files.push(FileCase { forged, data, up, tag, announce: idx, epoch: at.1, members: members.iter().copied().collect() });
@@ -222,6 +230,9 @@ fn media_history(prop: &str, i: u64, rng: &mut Rng, out: &mut Outcome, dir: &std
             });
             out.count("member_decryptions");
             let processed_announce = w.clients[m].first_result.get(&f.announce).cloned().unwrap_or_else(|| if w.log[f.announce].author == m { "own".into() } else { "never".into() });
+            if processed_announce == "own" && dist > 0 {
+                out.count("sender_decryptions_before_its_own_echo_at_a_later_epoch");
+            }
             match r {
                 Ok(bytes) => {
                     let h: [u8; 32] = Sha256::digest(&bytes).into();
@@ -329,6 +340,9 @@ fn media_history(prop: &str, i: u64, rng: &mut Rng, out: &mut Outcome, dir: &std
                 out.violation(format!("{prop}|key-collision|{prev}~next-epoch"), "the same tuple derives the same key in the next epoch".to_string(), json!({}));
             }
         }
+    }
+    for (m, e) in late_own_echoes {
+        w.deliver(m, e, OwnMode::Echo);
     }
     out.distinct.insert(crate::rng::fnv(format!("{i}-{}-{}", files.len(), w.log.len()).as_bytes()));
     if i < 2 {
@@ -450,6 +464,7 @@ pub fn run(ctx: &Ctx) -> i32 {
         Floor { what: "non-member decryption attempts", have: out.get("non_member_decryptions"), need: 800 },
         Floor { what: "tamper trials", have: out.get("tamper_trials"), need: 50_000 },
         Floor { what: "receivers that processed the announcing message after later commits", have: out.get("receivers_with_late_announce"), need: 200 },
+        Floor { what: "senders decrypting their own upload at a later epoch before their own echo arrived", have: out.get("sender_decryptions_before_its_own_echo_at_a_later_epoch"), need: 150 },
         Floor { what: "files whose content had been announced before in another epoch", have: out.get("same_content_announced_again"), need: 40 },
         Floor { what: "uploads whose MIME type was passed in a non-canonical spelling", have: out.get("uploads_with_non_canonical_mime_spelling"), need: 150 },
         Floor { what: "MIME families", have: out.sets.get("mime_families").map(|s| s.len()).unwrap_or(0) as u64, need: 8 },
